@@ -1559,4 +1559,4 @@ if __name__ == '__main__':
                      'resource_classes, POST reshaper (one shape))',
                      'pre-state valid: allocation => inventory, consumer <=> '
                      'allocations'],
-        quick_budget=170, thorough_budget=1700))
+        quick_budget=420, thorough_budget=2400))
